@@ -151,7 +151,7 @@ def san_run(args):
     p = os.path.join(td, "s%d.nano" % k)
     exe = os.path.join(td, "s%d.bin" % k)
     open(p, "w").write(src)
-    env = dict(os.environ, NANO_CC=cc, ASAN_OPTIONS="detect_leaks=0")
+    env = dict(os.environ, NANO_CC=cc, ASAN_OPTIONS="detect_leaks=0", NANO_GC_THRESHOLD_MB="1")
     try:
         c = subprocess.run([os.path.join(tdir, "bin", "nanoc_c"), p, "-o", exe], cwd=tdir, env=env, stdout=subprocess.PIPE, stderr=subprocess.PIPE, timeout=300)
     except subprocess.TimeoutExpired:
@@ -218,6 +218,10 @@ def run(ctx):
         srcs.append(text)
     srcs.append("fn main() -> int {\n    let a: int = 9223372036854775807\n    let b: int = (+ a 1)\n    (println b)\n    (println (* a 3))\n    (println (- (- 0 a) 2))\n    return 0\n}\nshadow main { assert (== 1 1) }\n")
     srcs += stdlib_edge_programs(rng, 2 if quick else 12)
+    # minimised past findings (corpus/native): run first in every tier; the GC ones with a 1 MB collection threshold
+    import glob as _glob
+    for f in sorted(_glob.glob(os.path.join(build.VERIF, "corpus", "native", "*.nano"))):
+        srcs.append(open(f).read())
     # strings larger than any fixed-size assumption in the runtime (1 MiB, 2 MiB, just around them), as left and right operand
     for tgt in ([1048576, 2097152] if quick else [65536, 1048575, 1048576, 1048577, 2097152, 4194304]):
         srcs.append("fn main() -> int {\n    let mut s: string = \"x\"\n    while (< (str_length s) %d) {\n        set s (+ s s)\n    }\n    let a: string = (+ \"#\" s)\n    let b: string = (+ s \"#\")\n"
